@@ -10,6 +10,7 @@ type Op struct {
 	Name string `json:"op"`
 	Arg  int    `json:"arg,omitempty"`
 	Arg2 int    `json:"arg2,omitempty"`
+	Empty bool  `json:"empty,omitempty"` // SetHeader / SendHeader with empty metadata
 }
 
 // Script is one experiment on one RPC (or Calls concurrent copies of it): the
@@ -33,13 +34,13 @@ type Script struct {
 	NHdr    int      `json:"nhdr"`
 	NTrl    int      `json:"ntrl"`
 	Seed    int64    `json:"seed"`
-	CancelN int      `json:"canceln"` // free mode: cancel when this many events were logged (0 = never)
-	CancelW string   `json:"cancelw"` // cancel | deadline
-	Cloner  string   `json:"cloner"`  // inproc: "" | codec | clonefunc | copyfunc
-	Calls   int      `json:"calls"`   // concurrent copies (free mode)
+	CancelN int      `json:"canceln"`          // free mode: cancel when this many events were logged (0 = never)
+	CancelW string   `json:"cancelw"`          // cancel | deadline
+	Cloner  string   `json:"cloner"`           // inproc: "" | codec | clonefunc | copyfunc
+	Calls   int      `json:"calls"`            // concurrent copies (free mode)
 	TrlBin  string   `json:"trlbin,omitempty"` // "raw": -bin trailer values are arbitrary bytes on every transport
-	ViaCtx  bool     `json:"viactx"`  // handler sets metadata through grpc.SetHeader(ctx,…)
-	Fault   string   `json:"fault"`   // "" | clone-fail:<n> | copy-fail:<n>
+	ViaCtx  bool     `json:"viactx"`           // handler sets metadata through grpc.SetHeader(ctx,…)
+	Fault   string   `json:"fault"`            // "" | clone-fail:<n> | copy-fail:<n>
 	Gates   []string `json:"gates,omitempty"`
 }
 
@@ -74,6 +75,11 @@ func number(ops []Op) []Op {
 	for i, o := range ops {
 		switch o.Name {
 		case "Send", "SetHeader", "SendHeader", "SetTrailer":
+			if o.Empty {
+				// a header operation with empty metadata: number 0
+				o.Arg = 0
+				break
+			}
 			key := o.Name
 			if key == "SendHeader" {
 				key = "SetHeader"
@@ -121,11 +127,19 @@ func cooperativeScript(r *rand.Rand, kind, tr string, id string) *Script {
 			h = append(h, Op{Name: "SetHeader"})
 		}
 	}
+	// now and then a header operation carries no metadata at all (SendHeader(nil)
+	// is the "flush the headers" idiom)
+	for i := range h {
+		if r.Intn(6) == 0 {
+			h[i].Empty = true
+		}
+	}
 	// SendHeader must be last among header ops for the script to be a legal use
 	seenSend := false
 	for i := range h {
 		if seenSend {
 			h[i].Name = "SetTrailer"
+			h[i].Empty = false
 		}
 		if h[i].Name == "SendHeader" {
 			seenSend = true
